@@ -36,7 +36,7 @@ RULE = ('each run = generated tree + Manifest layout (nested, compressed sub-Man
         'signer fault drawn from {none, exit 1, exit 2, SIGKILL, SIGTERM, no output, binary missing}; a twin world '
         'runs the same update with signing off; non-trivial = signing was expected or a signer fault was injected; '
         'distinct = distinct outcome digest')
-PLAN = {'quick': {'n': 400, 'budget_s': 55, 'block': 6, 'det': 2},
+PLAN = {'quick': {'n': 2000, 'budget_s': 90, 'block': 6, 'det': 2},
         'thorough': {'n': 12000, 'budget_s': 1500, 'block': 40, 'det': 3}}
 ASSUMPTIONS = ['gpg --decrypt strips trailing blanks per line and ends the text with a newline; both sides are normalised that way',
                'signature bytes, times and fingerprints never enter the event log']
@@ -45,7 +45,8 @@ COMPONENTS_STUB = ['signer process faults injected by sim/gpgproxy']
 
 
 def generate(rng, tier, idx):
-    g = GT.gen_tree(rng, {'top': 'Manifest', 'p_conflict': 0.0, 'p_dup': 0.0, 'p_multi': 0.1, 'symlinks': False,
+    top = 'Manifest' if rng.random() < 0.8 else rng.choice(['Manifest.gz', 'Manifest.xz', 'Manifest.bz2'])
+    g = GT.gen_tree(rng, {'top': top, 'p_conflict': 0.0, 'p_dup': 0.0, 'p_multi': 0.1, 'symlinks': False,
                           'hostile': rng.random() < 0.5})
     info = g['info']
     edits = GU.gen_edits(rng, info, rng.choice([0, 1, 1, 2, 3]))
@@ -53,7 +54,8 @@ def generate(rng, tier, idx):
     keyid = rng.choice([None, None, 'signer', 'other', 'expiring', 'unknown'])
     return {'prop': ID, 'order_key': '%016x' % rng.getrandbits(64), 'tree': g['tree'], 'manifests': g['manifests'],
             'edits': edits, 'orig_signed': rng.random() < 0.6, 'opt': opt, 'keyid': keyid,
-            'api': rng.choice(['lib', 'lib', 'cli']), 'force': rng.random() < 0.5,
+            'top': top, 'watermark': rng.choice([None, None, 0, 100000]) if top == 'Manifest' else rng.choice([None, 0, 100000, 100000]),
+            'api': rng.choice(['lib', 'lib', 'cli']) if top == 'Manifest' else 'lib', 'force': rng.random() < 0.5,
             'hashes': rng.choice([['SHA256'], ['MD5', 'SHA1'], ['BLAKE2B', 'SHA512']]),
             'fault': rng.choice([None] * 6 + ['exit1', 'exit2', 'kill', 'term', 'nooutput', 'missing'])}
 
@@ -66,12 +68,13 @@ def run_world(sc, sign, keyid, fault, orig_signed):
     """Build, edit, update+save.  Returns (result, top text or None, sub-manifest armor?, write happened)."""
     with World(sc) as w:
         w.build()
-        top = os.path.join(w.root, 'Manifest')
+        topname = sc.get('top', 'Manifest')
+        top = os.path.join(w.root, topname)
         if orig_signed:
-            with _o['open'](top, 'r', encoding='utf8') as f:
-                plain = f.read()
-            with _o['open'](top, 'w', encoding='utf8') as f:
-                f.write(GS.clearsign(plain, key='signer'))
+            with _o['open'](top, 'rb') as f:
+                plain = G.decompress(f.read(), G.comp_of(topname)).decode('utf8')
+            with _o['open'](top, 'wb') as f:
+                f.write(G.compress(GS.clearsign(plain, key='signer').encode('utf8'), G.comp_of(topname)))
         for e in sc.get('edits', []):
             w.mutate(e)
         clock = Clock(epoch_ns=w.epoch_ns + 100_000_000_000, key=sc['order_key'], mode='micro')
@@ -99,13 +102,15 @@ def run_world(sc, sign, keyid, fault, orig_signed):
                             argv += ['-k', kid]
                         if sc.get('force'):
                             argv.append('-f')
+                        if sc.get('watermark') is not None:
+                            argv += ['-c', str(sc['watermark'])]
                         argv.append(w.root)
                         r = cli_as_call(run_cli(argv))
                     else:
                         def upd():
                             env = SystemGPGEnvironment()
                             m = ManifestRecursiveLoader(top, openpgp_env=env, sign_openpgp=sign, openpgp_keyid=kid,
-                                                        hashes=sc['hashes'])
+                                                        hashes=sc['hashes'], compress_watermark=sc.get('watermark'))
                             m.update_entries_for_directory('')
                             m.save_manifests(force=bool(sc.get('force')))
                             return True
@@ -116,12 +121,16 @@ def run_world(sc, sign, keyid, fault, orig_signed):
                 os.environ.pop('GNUPGHOME', None)
             else:
                 os.environ['GNUPGHOME'] = old_home
-        wrote_top = any(e[1] == 'open.w' and e[2] == 'Manifest' for e in seam.write_events)
-        try:
-            with _o['open'](top, 'r', encoding='utf8') as f:
-                text = f.read()
-        except (OSError, UnicodeDecodeError):
-            text = None
+        tops = [n for n in G.MANIFEST_NAMES if os.path.exists(os.path.join(w.root, n))]
+        wrote_top = any(e[1] == 'open.w' and e[2] in G.MANIFEST_NAMES for e in seam.write_events)
+        text = None
+        if len(tops) == 1:
+            top = os.path.join(w.root, tops[0])
+            try:
+                with _o['open'](top, 'rb') as f:
+                    text = G.decompress(f.read(), G.comp_of(tops[0])).decode('utf8')
+            except Exception:
+                text = None
         armor = []
         for d, dn, fn in os.walk(w.root):
             for n in fn:
